@@ -31,6 +31,6 @@ META = dict(
     design_ref="DESIGN.md §6 C01",
     note="Trusted: Lean kernel + propext/Classical.choice/Quot.sound; the correspondence generator and comparison; Int for Go int; "
          "reflection-based reading of view metadata. Sampled side: rank<=3 (4 sampled), extent<=4, step<=3, depth<=3, <=30 ops/program.",
-    technique="Lean 4 proof (stride algebra by induction over rank and slice chains) + differential correspondence model vs real code",
+    technique="Lean 4 proof (stride algebra by induction over rank and slice chains) + differential correspondence model vs real code + model regenerated from the Go source on every run by a translator (gen_eq_* theorems tie it to the hand-written model)",
 )
 READY = True
